@@ -29,11 +29,20 @@ def run(ck, ctx):
                      "label, which makes (1, 13) and (11, 3) collide; colliding positions keep their join order through the stable sort, so "
                      "the replica list would depend on the order in which nodes joined")
     ck.nd("minimal disruption on membership change (a numeric property of consistent hashing); per-key RF overrides")
+    ck.rule("R19.7", "membership is consulted when routing, not frozen when the router is built: the constructors of GossipRouter store the peer "
+                     "address map they were given / derived from the configuration - they neither read the (shared, later changing) hash ring nor "
+                     "remove entries from the map: a configured peer that joins the ring afterwards owns keys, and a router that pruned its "
+                     "address would never send it their updates")
+    ck.rule("R19.8", "the configured replication factor is what lookups use: HashRing.replication_factor is stored by the constructor and by nothing "
+                     "else (no clamp to the momentary cluster size on removal): the owner count is min(RF, members) of the *current* membership, "
+                     "so a ring that shrank below RF and regrew answers like a fresh ring with the same members")
     for cfg in ctx.configs:
         prog = ctx.prog(cfg)
         ck.configs.append(cfg)
         ck.fn_count += len(prog.fns)
         _rules(ck, prog, cfg)
+        _r197(ck, prog, cfg)
+        _r198(ck, prog, cfg)
 
 
 def _is_field(fn, operand, name):
@@ -285,3 +294,45 @@ def _rules(ck, prog, cfg):
 def _sw_ord(fn, sb):
     sws = sorted(b for b in fn.reachable_blocks() if fn.term(b)["k"] == "switch")
     return sws.index(sb)
+
+
+# ------------------------------------------------------------------------------------------------
+def _r197(ck, prog, cfg):
+    n = 0
+    for f in prog.lib_fns():
+        if f.file != "src/replication/gossip_router.rs" or "::tests::" in f.id:
+            continue
+        builds = [st for b, i, st in f.stmts() if st["rv"]["k"] == "agg" and str(st["rv"].get("n", "")).endswith("gossip_router::GossipRouter")]
+        if not builds:
+            continue
+        n += 1
+        bad = []
+        for g in prog.with_children(f):
+            for b, t in g.calls():
+                c = callee(t) or ""
+                if re.search(r"RwLock::<replication::hash_ring::HashRing>::(read|write|try_read|try_write)$|replication::hash_ring::HashRing::", c):
+                    bad.append("reads the ring (%s)" % c.rsplit("::", 1)[-1])
+                if re.search(r"HashMap::<replication::lattice::ReplicaId, std::string::String.*>::(retain|remove|drain|clear|extract_if|remove_entry)(::<.*>)?$", c):
+                    bad.append("narrows the address map (%s)" % c.rsplit("::", 1)[-1].split("<")[0])
+        ck.check(not bad, "R19.7", "%s:address-book-as-configured%s" % (f.short, _tag(cfg)),
+                 "GossipRouter::%s %s while building the router: targets would be decided by the membership at construction time instead of by "
+                 "the ring at routing time" % (f.short, " and ".join(sorted(set(bad)))), f.where(), detail="no ring access, no pruning in the constructor")
+    ck.floor("R19.7" + _tag(cfg), n, 1)
+
+
+def _r198(ck, prog, cfg):
+    n = 0
+    RING = "replication::hash_ring::HashRing"
+    for f in prog.lib_fns():
+        if "::tests::" in f.id:
+            continue
+        for b, i, st in f.stmts():
+            pr = st["lhs"].get("p", [])
+            fs = [e for e in pr if isinstance(e, dict) and "f" in e]
+            if fs and pr[-1] is fs[-1] and fs[-1]["f"] == "replication_factor" and fs[-1].get("o") == RING:
+                ck.bad("R19.8", "%s:store-replication_factor%s" % (f.id.replace("replication::hash_ring::", ""), _tag(cfg)),
+                       "HashRing.replication_factor is overwritten after construction: the owner count then depends on the membership history "
+                       "(a clamp on removal is never undone when nodes join again), not on (members, configured RF)", f.where(st["ln"]))
+            if st["rv"]["k"] == "agg" and str(st["rv"].get("n", "")) == RING:
+                n += 1
+    ck.check(n >= 1, "R19.8", "constructed-with-rf" + _tag(cfg), "no HashRing constructor found", None, detail="%d constructor aggregate(s); no later store" % n)
